@@ -480,7 +480,9 @@ func (in *inliner) calleeUnsupported(di *declInfo) string {
 	ast.Inspect(di.decl.Body, func(n ast.Node) bool {
 		switch x := n.(type) {
 		case *ast.DeferStmt:
-			why = "callee defers"
+			if !simpleDefers(di)[x] {
+				why = "callee defers"
+			}
 		case *ast.BranchStmt:
 			if x.Tok == token.GOTO {
 				why = "callee has goto"
@@ -506,6 +508,91 @@ func (in *inliner) calleeUnsupported(di *declInfo) string {
 		return true
 	})
 	return why
+}
+
+// simpleDefers returns the defer statements of the callee that can be moved to the end of the inlined block: they stand at the top
+// level of the body in front of every statement that can leave it (so they are registered on every path), and what they call is a
+// selector chain over variables nobody assigns in the body, with arguments of the same kind (evaluating it later gives the same call).
+// On paths that end in a panic the inlined text differs from the source (the call is not made): rules about those paths see more, not less.
+func simpleDefers(di *declInfo) map[*ast.DeferStmt]bool {
+	out := map[*ast.DeferStmt]bool{}
+	info := di.pk.TypesInfo
+	assigned := map[types.Object]bool{}
+	ast.Inspect(di.decl.Body, func(n ast.Node) bool {
+		switch x := n.(type) {
+		case *ast.AssignStmt:
+			for _, l := range x.Lhs {
+				if id, ok := l.(*ast.Ident); ok {
+					if o := info.Uses[id]; o != nil {
+						assigned[o] = true
+					}
+				}
+			}
+		case *ast.IncDecStmt:
+			if id, ok := x.X.(*ast.Ident); ok {
+				if o := info.Uses[id]; o != nil {
+					assigned[o] = true
+				}
+			}
+		case *ast.UnaryExpr:
+			if id, ok := ast.Unparen(x.X).(*ast.Ident); ok && x.Op == token.AND {
+				if o := info.Uses[id]; o != nil {
+					assigned[o] = true
+				}
+			}
+		}
+		return true
+	})
+	var simple func(e ast.Expr) bool
+	simple = func(e ast.Expr) bool {
+		switch x := ast.Unparen(e).(type) {
+		case *ast.Ident:
+			o := info.Uses[x]
+			return o != nil && !assigned[o]
+		case *ast.SelectorExpr:
+			return simple(x.X)
+		case *ast.BasicLit:
+			return true
+		}
+		return false
+	}
+	for _, st := range di.decl.Body.List {
+		if d, ok := st.(*ast.DeferStmt); ok {
+			ok := true
+			switch f := ast.Unparen(d.Call.Fun).(type) {
+			case *ast.Ident:
+				_, isFunc := info.Uses[f].(*types.Func)
+				ok = isFunc
+			case *ast.SelectorExpr:
+				ok = simple(f.X)
+			default:
+				ok = false
+			}
+			for _, a := range d.Call.Args {
+				if !simple(a) {
+					ok = false
+				}
+			}
+			if ok {
+				out[d] = true
+			}
+			continue
+		}
+		leaves := false
+		ast.Inspect(st, func(n ast.Node) bool {
+			switch n.(type) {
+			case *ast.ReturnStmt, *ast.BranchStmt:
+				leaves = true
+			case *ast.FuncLit:
+				return false
+			}
+			return true
+		})
+		if leaves {
+			break
+		}
+	}
+	return out
 }
 
 // lhsDecls: for  a, b := f()  the new variables are declared in front of the block; returns the declaration text and the
@@ -934,6 +1021,34 @@ func (in *inliner) expand(call *ast.CallExpr, obj *types.Func, recv ast.Expr, lh
 	}
 	walk(di.decl.Body, false)
 	sort.SliceStable(eds, func(i, j int) bool { return eds[i].s < eds[j].s })
+	// deferred calls that can run at the end of the block (simpleDefers): their text, identifiers renamed, in reverse order
+	var deferred []string
+	for _, st := range di.decl.Body.List {
+		d, ok := st.(*ast.DeferStmt)
+		if !ok || !simpleDefers(di)[d] {
+			continue
+		}
+		var t bytes.Buffer
+		cs, ce := coff(d.Call.Pos()), coff(d.Call.End())
+		lastc := cs
+		for _, e := range eds {
+			if e.s < lastc || e.e > ce {
+				continue
+			}
+			t.Write(di.src[lastc:e.s])
+			t.WriteString(e.t)
+			lastc = e.e
+		}
+		t.Write(di.src[lastc:ce])
+		deferred = append([]string{t.String()}, deferred...)
+		eds = append(eds, ed{coff(d.Pos()), coff(d.End()), ""})
+	}
+	sort.SliceStable(eds, func(i, j int) bool {
+		if eds[i].s != eds[j].s {
+			return eds[i].s < eds[j].s
+		}
+		return eds[i].e > eds[j].e // the removal of a defer statement before the renames inside it
+	})
 	var body bytes.Buffer
 	last := bodyStart
 	for _, e := range eds {
@@ -952,6 +1067,9 @@ func (in *inliner) expand(call *ast.CallExpr, obj *types.Func, recv ast.Expr, lh
 		out.WriteString(l + "; ")
 	}
 	out.WriteString(label + ": for { " + body.String() + "\n break " + label + " }; ")
+	for _, d := range deferred {
+		out.WriteString(d + "; ")
+	}
 	if len(lhs) > 0 {
 		allBlank := true
 		for _, l := range lhs {
